@@ -310,7 +310,7 @@ impl Float {
         let bits =
             self.sem.get_precision() as i64 - self.mantissa.msb_index() as i64;
         if bits > 0 {
-            self.exp += bits;
+            self.exp -= bits;
             self.mantissa.shift_left(bits as usize);
         }
     }
